@@ -77,6 +77,8 @@ def register(E):
 
     register_dispatch(E)
     register_dispatch_contract(E)
+    from contracts import route as _route
+    _route.register_more(E)
     E.specns['INSERT_AT'] = __import__('pyvc.interp', fromlist=['VSpecFn']).VSpecFn(I0, 'INSERT_AT')
 
     E.add_contract(Contract(
@@ -171,7 +173,13 @@ def register_dispatch(E):
 
     # error types of the error handler: calling one builds an HTTPException instance
     def errtype_call(I, ctx, fv, *args, **kwargs):
-        e = ctx.new_obj('httperr', distinct=False)
+        sr0 = kwargs.get('source_route')
+        if sr0 is not None and isinstance(sr0, VObj):
+            e = Z.func('ERR_OF', Z.Obj, Z.Obj, Z.Obj)(fv.z, sr0.z)
+            ctx.assume(e != Z.NONE)
+        else:
+            e = ctx.new_obj('httperr', distinct=False)
+        ctx.assume(z3.Not(Z.func('ISRENDERED', Z.Obj, Z.Bool)(e)))     # ghost: a freshly built error is not a rendering
         ctx.assume(isinst(e, HE_CLS))
         ctx.assume(Z.func('ERRTYPE_OF', Z.Obj, Z.Obj)(e) == fv.z)
         ctx.assume(z3.Or(z3.Not(HAS_BREAK(e)), truthy(z3.Select(BREAK_ATTR, e))))    # is_breaking defaults to True
@@ -239,6 +247,7 @@ def register_dispatch(E):
             r = errtype_call(I, ctx, t)
             ctx.assume(STATUS(r.z) == 404)
             return r
+        RF = Z.func('RENDERED_FROM', Z.Obj, Z.Obj)
         if ctx.branch(XRAISES(route.z)):
             e = XEXC(route.z)
             ctx.assume(isinst(e, 'builtins.Exception'))
@@ -265,6 +274,7 @@ def register_dispatch(E):
         r = ctx.new_obj('rendered_error', distinct=False)
         ctx.assume(isinst(r, BR_CLS))
         ctx.assume(Z.func('RENDERED_FROM', Z.Obj, Z.Obj)(r) == box(_error, ctx) if _error is not None else Z.TRUE)
+        ctx.assume(Z.func('ISRENDERED', Z.Obj, Z.Bool)(r))
         return VObj(r)
 
     E.add_contract(Contract('clastic.route.BoundRoute.execute_error', trusted=True, model=execute_error_model,
@@ -323,23 +333,222 @@ def register_dispatch_contract(E):
         ctx.app_self = fr.locals['self']
 
     HE, BR, RR = HE_CLS, BR_CLS, RR_CLS
+    EXCF, AMF = folds(E)
+
+    def rf(I, ctx, r, request):
+        P = E.read_typed_attr(ctx, 'Request.path', TStr, request.z).z
+        Mth = E.read_typed_attr(ctx, 'Request.method', TStr, request.z).z
+        return route_facts(E, r.z, P, Mth), P, Mth
+
+    for nm in ('answers', 'redirect', 'plain', 'executes', 'nonbreak', 'match', 'admits'):
+        def mk(nm):
+            def f(I, ctx, r, request):
+                return VBool(rf(I, ctx, r, request)[0][nm])
+            return f
+        E.specns[nm.upper() + '_R'] = VSpecFn(mk(nm), nm.upper() + '_R')
+
+    def _nft(ctx, eh):
+        return E.read_typed_attr(ctx, 'EH.not_found_type', E.opaque['EH'].attrs['not_found_type'], eh.z).z
+
+    @E.spec('EXCFOLD')
+    def EXCFOLD(I, ctx, S, i, request, eh):
+        q = I._as_seq(ctx, I.resolve(ctx, S), TBRoute)
+        _, P, Mth = rf(I, ctx, VObj(Z.NONE), request)
+        return VSeq(EXCF(q[0], TInt.to_z(i), P, Mth, _nft(ctx, eh)), TObj())
+
+    @E.spec('AMFOLD')
+    def AMFOLD(I, ctx, S, i, request):
+        q = I._as_seq(ctx, I.resolve(ctx, S), TBRoute)
+        _, P, Mth = rf(I, ctx, VObj(Z.NONE), request)
+        return VSet(AMF(q[0], TInt.to_z(i), P, Mth), TStr)
+
+    ISRENDERED = Z.func('ISRENDERED', Z.Obj, Z.Bool)
+
+    @E.spec('RENDERS')
+    def RENDERS(I, ctx, result, err):
+        """result is the error itself (default rendering adapts it in place) or what the
+        route's error renderer made of it"""
+        return VBool(z3.Or(result.z == err.z, z3.And(ISRENDERED(result.z), RENDERED_FROM(result.z) == err.z)))
+
+    @E.spec('ERROR_OF')
+    def ERROR_OF(I, ctx, result):
+        return VObj(z3.If(ISRENDERED(result.z), RENDERED_FROM(result.z), result.z))
+
+    @E.spec('ISRENDERED')
+    def ISRENDERED_(I, ctx, r):
+        return VBool(ISRENDERED(box(I.resolve(ctx, r), ctx)))
+
+    @E.spec('ALLSELF')
+    def ALLSELF(I, ctx, seq):
+        q = I._as_seq(ctx, I.resolve(ctx, seq), TObj())
+        k = z3.Int(Z.fresh_name('qi'))
+        return VBool(z3.ForAll([k], z3.Implies(z3.And(k >= 0, k < z3.Length(q[0])),
+                                              RENDERED_FROM(q[0][k]) == q[0][k]), patterns=[q[0][k]]))
+
+    @E.spec('XRET')
+    def XRET_(I, ctx, r):
+        return VObj(XRET(r.z))
+
+    @E.spec('RENDERED_FROM')
+    def RENDERED_FROM_(I, ctx, r):
+        return VObj(RENDERED_FROM(box(I.resolve(ctx, r), ctx)))
+
+    @E.spec('STATUS')
+    def STATUS_(I, ctx, r):
+        return VInt(STATUS(r.z))
+
+    @E.spec('ALLOW')
+    def ALLOW2(I, ctx, r):
+        return VSet(ALLOW(r.z), TStr)
+
+    @E.spec('LOCATION')
+    def LOCATION_(I, ctx, r):
+        return VStr(LOCATION(r.z))
+
+    @E.spec('NORM')
+    def NORM_(I, ctx, p, b):
+        return VStr(NORM(p.z, I.truth(ctx, b)))
+
+    @E.spec('QUOTED_QUERY')
+    def QUOTED_QUERY(I, ctx, request):
+        qs = E.read_typed_attr(ctx, 'Request.query_string', TBytes, request.z)
+        safe = E.refl['modules']['clastic.application']['consts'].get('_QUERY_SAFE', {'v': '/:'})['v']
+        return VStr(Z.func('url_quote', Z.Str, Z.Str, Z.Str)(qs.z, z3.StringVal(safe)))
+
+    @E.spec('RSTRIP_SLASH')
+    def RSTRIP_SLASH(I, ctx, s):
+        from pyvc import strs
+        return strs.method(I, ctx, None, s, 'rstrip', [VStr('/')], {}, None)
+
+    NR = 'len(self.routes)'
     wf = ['IS_NULL_ROUTE(self._null_route)', 'no_null_routes(self.routes)',
           'MATCHES(self._null_route, request.path)', 'self._null_route.methods is None',
           'not self._null_route.is_branch']
+    first = 'forall_int(0, _i, lambda j: implies(j < %s, not ANSWERS_R(_seq[j], request)))' % NR
+    EXC_END = 'EXCFOLD(_seq, %s, request, self.error_handler)' % NR
+    AM_END = 'AMFOLD(_seq, %s, request)' % NR
+    # what is known when the loop is left by break or exhaustion (_i: index of the answering
+    # route; >= len(self.routes) when only the built-in catch-all route answered)
+    POST = [
+        'isinstance_of(ret, "%s")' % BR,
+        '_i <= %s + 1' % NR,
+        first,
+        'implies(_i < %s, ANSWERS_R(_seq[_i], request) and not REDIRECT_R(_seq[_i], request))' % NR,
+        'implies(_i < %s and PLAIN_R(_seq[_i], request), ret is XRET(_seq[_i]))' % NR,
+        'implies(_i >= %s and len(%s) > 0, ret is %s[-1])' % (NR, EXC_END, EXC_END),
+        'implies(_i >= %s and len(%s) == 0 and len(%s) > 0, STATUS(ret) == 405 and ALLOW(ret) == %s and '
+        'not ISRENDERED(ret))' % (NR, EXC_END, AM_END, AM_END),
+        'implies(_i >= %s and len(%s) == 0 and len(%s) == 0, STATUS(ret) == 404 and not ISRENDERED(ret))' % (NR, EXC_END, AM_END),
+        'implies(_i >= %s, isinstance_of(ret, "%s"))' % (NR, HE),
+    ]
     loop = LoopSpec(
         inv=['ret is None or isinstance_of(ret, "%s")' % HE,
-             'implies(_i > len(self.routes), isinstance_of(ret, "%s"))' % HE,
-             '_i <= len(self.routes) + 1'],
+             'implies(_i > %s, isinstance_of(ret, "%s"))' % (NR, HE),
+             '_i <= %s + 1' % NR,
+             first,
+             'implies(_i <= %s, dispatch_state.exceptions == EXCFOLD(_seq, _i, request, self.error_handler))' % NR,
+             'implies(_i <= %s, dispatch_state.allowed_methods == AMFOLD(_seq, _i, request))' % NR,
+             'implies(_i > %s, len(EXCFOLD(_seq, %s, request, self.error_handler)) > 0 and ret is EXCFOLD(_seq, %s, request, self.error_handler)[-1])' % (NR, NR, NR),
+             'len(dispatch_state.exceptions) == 0 or isinstance_of(dispatch_state.exceptions[-1], "%s")' % HE,
+             ],
         havoc={'ret': TObj(), 'params': TDict(TStr, TObj())},
         modifies={'dispatch_state.exceptions': TList(TObj()), 'dispatch_state.allowed_methods': TMSet(TStr)},
-        havoc_attrs=['path_params', 'source_route'])
+        havoc_attrs=['path_params', 'source_route'],
+        post=POST)
+    EXC_END = 'EXCFOLD(_seq, %s, request, self.error_handler)' % NR
+    AM_END = 'AMFOLD(_seq, %s, request)' % NR
     E.add_contract(Contract(
         'clastic.application.Application.dispatch',
         params={'self': TInst('clastic.application.Application', E.app_fields), 'request': TObj('Request')},
         setup=setup, requires=wf,
         inline=['clastic.route.BoundRoute.match_method'],
         loops={('route', 'self.routes + [self._null_route]'): loop},
-        ensures=['isinstance_of(result, "%s")' % BR],
+        ensures=[
+            'isinstance_of(result, "%s")' % BR,
+            # C06: routes before the answering one did not answer; the answering one does
+            first,
+            'implies(_i < %s, ANSWERS_R(_seq[_i], request))' % NR,
+            # a plain Response of the answering route is returned as is
+            'implies(_i < %s and PLAIN_R(_seq[_i], request), result is XRET(_seq[_i]))' % NR,
+            # C07: a redirect is issued exactly by a redirecting route, to the canonical path, query kept
+            'implies(_i < %s and REDIRECT_R(_seq[_i], request), LOCATION(result) == RSTRIP_SLASH(request.url_root) + '
+            'NORM(request.path, True) + "?" + QUOTED_QUERY(request))' % NR,
+            # no route answered: the most recent non-breaking error, else 405 + Allow, else 404
+            'implies(_i >= %s and len(%s) > 0, RENDERS(result, %s[-1]))' % (NR, EXC_END, EXC_END),
+            'implies(_i >= %s and len(%s) == 0 and len(%s) > 0, STATUS(ERROR_OF(result)) == 405 and '
+            'ALLOW(ERROR_OF(result)) == %s)' % (NR, EXC_END, AM_END, AM_END),
+            'implies(_i >= %s and len(%s) == 0 and len(%s) == 0, STATUS(ERROR_OF(result)) == 404)' % (NR, EXC_END, AM_END),
+        ],
         raises={'builtins.Exception': None},
         raises_local={'builtins.Exception': 'isinstance_of(_exc, "%s") or RERAISE(self.error_handler)' % RR},
         heavy=True, prop=['C06', 'C07', 'C08', 'C12']))
+
+
+# ---- C06/C07: classification of one route for one request, and the folds ---------------------
+_HB = Z.const('H0:BoundRoute.is_branch', z3.ArraySort(Z.Obj, Z.Bool))
+_HS = Z.const('H0:BoundRoute.slash_mode', z3.ArraySort(Z.Obj, Z.Str))
+_HMN = Z.const('H0:BoundRoute.methods?none', z3.ArraySort(Z.Obj, Z.Bool))
+_HM = Z.const('H0:BoundRoute.methods', z3.ArraySort(Z.Obj, Z.SetSort(Z.Str)))
+_HNFT = Z.const('H0:EH.not_found_type', z3.ArraySort(Z.Obj, Z.Obj))
+RENDERED_FROM = Z.func('RENDERED_FROM', Z.Obj, Z.Obj)
+ERR_OF = Z.func('ERR_OF', Z.Obj, Z.Obj, Z.Obj)        # error built by an error type for a source route
+XRAISES = Z.func('XRAISES', Z.Obj, Z.Bool)
+XRET = Z.func('XRET', Z.Obj, Z.Obj)
+XEXC = Z.func('XEXC', Z.Obj, Z.Obj)
+
+
+_r = z3.Const('rf!r', Z.Obj)
+_t = z3.Const('rf!t', Z.Obj)
+
+
+def route_facts(E, r, P, Mth):
+    C = E.classes
+
+    def isa(o, cls):
+        return issub(cls_of(o), C.const(cls))
+    m = MATCH(r, P)
+    mnone = z3.Select(_HMN, r)
+    ms = z3.Select(_HM, r)
+    a = z3.Or(z3.Length(Mth) == 0, mnone, ms == Z.empty_set(Z.Str), z3.IsMember(UPPER(Mth), ms))
+    brn = z3.And(z3.Select(_HB, r), NORM(P, z3.BoolVal(True)) != P)
+    mode = z3.Select(_HS, r)
+    redir = z3.And(m, a, brn, mode == z3.StringVal('redirect'))
+    strict = z3.And(m, a, brn, mode == z3.StringVal('strict'))
+    ex = z3.And(m, a, z3.Not(redir), z3.Not(strict))
+    xe, xr = XEXC(r), XRET(r)
+    nonbreak = z3.And(ex, z3.Or(
+        z3.And(XRAISES(r), z3.Not(isa(xe, RR_CLS)), isa(xe, HE_CLS), z3.Not(is_breaking_z(xe))),
+        z3.And(z3.Not(XRAISES(r)), isa(xr, BR_CLS), isa(xr, HE_CLS), z3.Not(is_breaking_z(xr)))))
+    answers = z3.Or(redir, z3.And(ex, z3.Not(nonbreak)))
+    plain = z3.And(ex, z3.Not(XRAISES(r)), isa(xr, BR_CLS), z3.Not(isa(xr, HE_CLS)))
+    nbobj = z3.If(XRAISES(r), xe, xr)
+    return dict(match=m, admits=a, redirect=redir, strict=strict, executes=ex, nonbreak=nonbreak, answers=answers,
+                plain=plain, nbobj=nbobj, methods=z3.If(mnone, Z.empty_set(Z.Str), ms))
+
+
+_EXC_DEFS = {}
+
+
+def folds(E):
+    """EXCFOLD / AMFOLD: the dispatch state after the first i routes, none of which answered."""
+    if 'EXC' in _EXC_DEFS:
+        return _EXC_DEFS['EXC'], _EXC_DEFS['AM']
+    S = z3.Const('fold!S', SeqO)
+    i = z3.Int('fold!i')
+    P = z3.Const('fold!P', Z.Str)
+    Mth = z3.Const('fold!M', Z.Str)
+    nft = z3.Const('fold!nft', Z.Obj)
+    EXC = z3.RecFunction('EXCFOLD', SeqO, Z.Int, Z.Str, Z.Str, Z.Obj, SeqO)
+    AM = z3.RecFunction('AMFOLD', SeqO, Z.Int, Z.Str, Z.Str, Z.SetSort(Z.Str))
+    f = route_facts(E, S[i - 1], P, Mth)
+    z3.RecAddDefinition(EXC, [S, i, P, Mth, nft],
+                        z3.If(i <= 0, Z.empty_seq(Z.Obj),
+                              z3.Concat(EXC(S, i - 1, P, Mth, nft),
+                                        z3.If(f['strict'], z3.Unit(ERR_OF(nft, S[i - 1])),
+                                              z3.If(f['nonbreak'], z3.Unit(f['nbobj']), Z.empty_seq(Z.Obj))))))
+    z3.RecAddDefinition(AM, [S, i, P, Mth],
+                        z3.If(i <= 0, Z.empty_set(Z.Str),
+                              z3.SetUnion(AM(S, i - 1, P, Mth),
+                                          z3.If(z3.And(f['match'], z3.Not(f['admits'])), f['methods'], Z.empty_set(Z.Str)))))
+    _EXC_DEFS['EXC'], _EXC_DEFS['AM'] = EXC, AM
+    return EXC, AM
